@@ -4,6 +4,7 @@ CONSTANTS
   MaxOps = 5
   EmitAt = 5
 INVARIANT RestoredIsSaved
+INVARIANT PathOnlyChangedByRecompute
 INVARIANT DiskNeverAhead
 INVARIANT Emit
 CHECK_DEADLOCK FALSE
